@@ -131,6 +131,9 @@ def run_case(case):
                 edits.append(["remove_abs"])
             else:
                 edits.append(["insert_abs", None])
+    h.warnings_as_errors = bool(case["i"] % 5 == 3)     # every fifth case: the edits run with warnings turned into errors
+    if h.warnings_as_errors:
+        res.count("C18.cases_with_warnings_as_errors")
     for op in edits:
         T0 = p.time
         if op[0] == "insert_abs" and op[1] is None:
